@@ -774,6 +774,437 @@ def gen_view_cases(ctx, T, n_cases):
     return out
 
 
+# ------------------------------------------------------------------ what was done with the object BEFORE it is written
+# Every object of the families above is written straight after it was built / edited / derived.  The property speaks
+# of writing ANY Molecule / Structure / ConformerEnsemble: nothing that merely LOOKS at the object beforehand may show
+# in the text -- a loop over the conformers that was left early (break / exception / next(iter(ens)) / zip / any),
+# loops that are nested, interleaved or still suspended while the write runs, an earlier (complete or failed) write,
+# indexing and slicing, conformer / substructure views obtained and kept, reads of properties, str(), ==, copies,
+# lookups.  A case of this family: base object, a history of such look-only operations, the writer entry point
+# (dumps_mol2, dump_mol2 into a StringIO / an open file / a stream that already holds other text, molli.dumps,
+# molli.dump into a stream / a path, one conformer after the other), the reader entry point, a second history on
+# the object read back and the entry point of the second write.  For ensembles every conformer an iteration hands
+# out is recorded ("trace") and compared in Coq with Model/Mol2History.v: each iter() owns its cursor.
+ENS_OPS = ["loop-break", "loop-raise", "loop-full", "loop-nested", "peek", "hold", "hold", "zip", "any", "list", "index", "slice",
+           "conf-read", "conf-write", "props", "str", "write", "write-fail", "xyz", "copy", "eq", "interleave"]
+MOL_OPS = ["props", "str", "write", "write-fail", "xyz", "copy", "eq", "atoms-loop", "lookup", "heavy", "sub-write", "clone"]
+W_ENTRIES = ["dumps", "dump-stringio", "dump-file", "dump-after-text", "ml.dumps", "ml.dump-stream", "ml.dump-path"]
+W_ENTRIES_ENS = W_ENTRIES + ["loop-dumps", "index-dumps", "loop-dump-stream"]
+R_ENTRIES = ["loads", "load-stringio", "ml.loads", "ml.load-path"]
+
+
+class _LeaveLoop(Exception):
+    pass
+
+
+class _HistoryOpRaised(Exception):
+    pass
+
+
+class _FailingStream:
+    """a stream that accepts `ok` writes and then fails (disk full)"""
+    def __init__(self, ok):
+        self.ok = ok
+
+    def write(self, s):
+        if self.ok <= 0:
+            raise OSError("no space left on device")
+        self.ok -= 1
+        return len(s)
+
+
+def write_via(obj, kind, entry, scratch):
+    """the mol2 text of obj through one writer entry point"""
+    import io
+    import molli as ml
+    if entry == "dumps":
+        return obj.dumps_mol2()
+    if entry == "dump-stringio":
+        st = io.StringIO()
+        obj.dump_mol2(st)
+        return st.getvalue()
+    if entry == "dump-after-text":
+        st = io.StringIO()
+        st.write("# written earlier\n@<TRIPOS>MOLECULE\nother\n0 0 0 0 0\nSMALL\nUSER_CHARGES\n\n@<TRIPOS>ATOM\n@<TRIPOS>BOND\n")
+        at = st.tell()
+        obj.dump_mol2(st)
+        return st.getvalue()[at:]
+    if entry == "ml.dumps":
+        return ml.dumps(obj, "mol2")
+    if entry == "ml.dump-stream":
+        st = io.StringIO()
+        ml.dump(obj, st, "mol2")
+        return st.getvalue()
+    if entry in ("dump-file", "ml.dump-path"):
+        path = os.path.join(scratch, "w.mol2")
+        if entry == "dump-file":
+            with open(path, "w", encoding="utf-8", newline="") as f:
+                obj.dump_mol2(f)
+        else:
+            if os.path.exists(path):
+                os.remove(path)
+            enc = all(ord(c) < 128 for c in (obj.name or "")) and all(ord(c) < 128 for a in obj.atoms for c in (a.label or ""))
+            if not enc:              # molli.dump opens the path with the locale's encoding: not this property
+                return write_via(obj, kind, "ml.dump-stream", scratch)
+            ml.dump(obj, path, mode="w")
+        with open(path, encoding="utf-8", newline="") as f:
+            return f.read()
+    assert kind == "ens", entry
+    if entry == "loop-dumps":
+        return "".join(c.dumps_mol2() for c in obj)
+    if entry == "index-dumps":
+        return "".join(obj[k].dumps_mol2() for k in range(obj.n_conformers))
+    if entry == "loop-dump-stream":
+        st = io.StringIO()
+        for c in obj:
+            c.dump_mol2(st)
+        return st.getvalue()
+    raise ValueError(entry)
+
+
+def read_via(kind, text, entry, scratch):
+    import io
+    import molli as ml
+    cls = cls_of(kind)
+    if entry == "ml.loads" and kind != "struct":
+        return ml.loads(text, "mol2", otype="ensemble" if kind == "ens" else "molecule")
+    if entry == "ml.load-path" and kind != "struct" and all(ord(c) < 128 for c in text):
+        path = os.path.join(scratch, "r.mol2")
+        with open(path, "w", encoding="utf-8", newline="") as f:
+            f.write(text)
+        return ml.load(path, otype="ensemble" if kind == "ens" else "molecule")
+    if entry == "load-stringio":
+        return cls.load_mol2(io.StringIO(text))
+    return cls.loads_mol2(text)
+
+
+def conf_matches(desc, c):
+    """which conformers of the description the Conformer c shows (by coordinates and charges, exactly)"""
+    import numpy as np
+    n = len(desc["atoms"])
+    X = [[float(x).hex() for x in row] for row in np.asarray(c.coords, dtype=float).reshape(n, 3)]
+    Q = [float(q).hex() for q in np.asarray(c.atomic_charges, dtype=float).reshape(n)]
+    return [k for k, cf in enumerate(desc["confs"]) if cf["coords"] == X and cf["charges"] == Q]
+
+
+def apply_history(T, obj, desc, ops, keep, scratch, trace):
+    """run look-only operations on obj.  `trace` (ensembles): (operation, observation) Coq terms for Model/Mol2History.v"""
+    import copy, pickle, io
+    import numpy as np
+    import molli as ml
+    kind = desc["kind"]
+    n_it = [sum(1 for t in trace if t[0] == "HNew")]
+    nc = len(desc["confs"])
+    n = len(desc["atoms"])
+
+    def seen(idx, c):
+        trace.append((f"(HNext {idx})", "(OYield [" + "; ".join(str(k) for k in conf_matches(desc, c)) + "])"))
+
+    def new_it():
+        trace.append(("HNew", "ONone"))
+        n_it[0] += 1
+        return n_it[0] - 1
+
+    def loop(at, how, inner=None):
+        """a real `for` statement over the ensemble, left at iteration `at` (None: runs to its end)"""
+        idx = new_it()
+        try:
+            for i, c in enumerate(obj):
+                seen(idx, c)
+                if inner is not None and i == inner[0]:
+                    loop(inner[1], inner[2])
+                if i == at:
+                    if how == "break":
+                        break
+                    raise _LeaveLoop()
+            else:
+                trace.append((f"(HNext {idx})", "OStop"))
+        except _LeaveLoop:
+            pass
+
+    def step(it, idx):
+        try:
+            c = next(it)
+        except StopIteration:
+            trace.append((f"(HNext {idx})", "OStop"))
+            return None
+        seen(idx, c)
+        return c
+
+    def look(o):
+        for nm in ("name", "n_atoms", "n_bonds", "n_conformers", "formula", "molecular_weight", "elements", "coords", "atomic_charges",
+                   "atoms", "bonds", "attachment_points", "n_attachment_points", "coords_as_list", "weights", "charge", "mult", "attrib"):
+            try:
+                v = getattr(o, nm)
+                if nm in ("atoms", "bonds", "elements"):
+                    len(v)
+                    for x in v:          # a loop over the atom / bond list that is left early
+                        break
+            except Exception:
+                pass
+
+    for op in ops:
+        o = op["op"]
+        if o in ("loop-break", "loop-raise"):
+            loop(op["at"] % nc, "break" if o == "loop-break" else "raise")
+        elif o == "loop-full":
+            loop(None, None)
+        elif o == "loop-nested":
+            loop(op["at"] % nc if op["at"] is not None else None, op["how"], (op["iat"] % nc, op["inner_at"] % nc if op["inner_at"] is not None else None, op["ihow"]))
+        elif o == "peek":
+            idx = new_it()
+            seen(idx, next(iter(obj)))
+        elif o == "hold":            # an iteration that is still suspended when the write runs
+            idx = new_it()
+            it = iter(obj)
+            for _ in range(op["n"] % (nc + 2)):
+                step(it, idx)
+            keep.append(it)
+        elif o == "interleave":      # two iterations advanced in turn
+            ia, ib = new_it(), new_it()
+            a, b = iter(obj), iter(obj)
+            for w in op["turns"]:
+                step(a if w == 0 else b, ia if w == 0 else ib)
+            if op["keep"]:
+                keep.extend([a, b])
+        elif o == "zip":
+            idx = new_it()
+            for c, _ in zip(obj, range(op["n"] % (nc + 1))):
+                seen(idx, c)
+            # zip asked the ensemble first: one more conformer was taken than pairs were made (unless the ensemble ended)
+            trace.append((f"(HNext {idx})", "OAny"))
+        elif o == "any":
+            idx = new_it()
+            got = []
+            any(got.append(c) or True for c in obj)
+            for c in got:
+                seen(idx, c)
+        elif o == "list":
+            idx = new_it()
+            for c in list(obj):
+                seen(idx, c)
+            trace.append((f"(HNext {idx})", "OStop"))
+        elif o == "index":
+            vs = []
+            for k in op["ks"]:
+                k = k % nc
+                c = obj[k - nc] if op.get("neg") else obj[k]
+                trace.append((f"(HIndex {k})", "(OYield [" + "; ".join(str(j) for j in conf_matches(desc, c)) + "])"))
+                vs.append(c)
+            if op.get("keep"):
+                keep.extend(vs)
+        elif o == "slice":
+            vs = obj[op["a"] % (nc + 1):op["b"] % (nc + 2)]
+            trace.append(("HLook", "ONone"))
+            if op.get("keep"):
+                keep.extend(vs)
+        elif o == "conf-read":
+            c = obj[op["k"] % nc]
+            look(c)
+            str(c), repr(c)
+            trace.append(("HLook", "ONone"))
+        elif o == "conf-write":
+            write_via(obj[op["k"] % nc], "mol", op["entry"], scratch)
+            trace.append(("HLook", "ONone"))
+        elif o == "props":
+            look(obj)
+            trace.append(("HLook", "ONone"))
+        elif o == "str":
+            str(obj), repr(obj)
+            trace.append(("HLook", "ONone"))
+        elif o == "eq":
+            try:
+                obj == obj, obj != copy.copy(obj), hash(obj)
+            except Exception:
+                pass
+            trace.append(("HLook", "ONone"))
+        elif o == "write":
+            t = write_via(obj, kind, op["entry"], scratch)
+            trace.append(("HWrite", "(OText " + cq_lines(t) + ")") if kind == "ens" and len(t) < 20000 else ("HLook", "ONone"))
+        elif o == "write-fail":      # an earlier write that died half way
+            try:
+                obj.dump_mol2(_FailingStream(op["ok"]))
+            except OSError:
+                pass
+            trace.append(("HLook", "ONone"))
+        elif o == "xyz":
+            try:
+                obj.dumps_xyz()
+            except Exception:
+                pass
+            trace.append(("HLook", "ONone"))
+        elif o == "copy":
+            via = op["via"]
+            c = copy.deepcopy(obj) if via == "deepcopy" else pickle.loads(pickle.dumps(obj)) if via == "pickle" else copy.copy(obj)
+            if op.get("keep"):
+                keep.append(c)
+            trace.append(("HLook", "ONone"))
+        elif o == "clone":
+            c = (ml.Molecule if op["via"] == "Molecule" else ml.Structure)(obj)
+            c.dumps_mol2()
+            if op.get("keep"):
+                keep.append(c)
+        elif o == "atoms-loop":
+            for a in obj.atoms:
+                if obj.atoms.index(a) == op["at"] % max(n, 1):
+                    break
+            it = iter(obj.bonds)
+            next(it, None)
+            keep.append(it)
+        elif o == "lookup" and n:
+            i = op["at"] % n
+            a = obj.get_atom(i)
+            obj.get_atom_index(a), obj.index_atom(a), list(obj.bonds_with_atom(a)), obj.n_bonds_with_atom(a)
+            g = obj.connected_atoms(a)
+            next(iter(g), None)
+            g2 = obj.yield_atoms_by_element(a.element)
+            next(g2, None)
+            keep.append(g2)
+            try:
+                next(obj.yield_bfs(a), None)
+            except Exception:
+                pass
+        elif o == "heavy":
+            v = obj.heavy
+            v.n_atoms, v.n_bonds, v.coords
+            if op.get("keep"):
+                keep.append(v)
+        elif o == "sub-write" and n:
+            sel = [i % n for i in op["sel"]]
+            v = obj.substructure(sel)
+            write_via(v, "struct", "dumps", scratch)
+            if op.get("keep"):
+                keep.append(v)
+
+
+def rand_history(rng, kind, nc, n):
+    ops = []
+    for _ in range(rng.choice([1, 1, 1, 2, 3, 5])):
+        o = rng.choice(ENS_OPS if kind == "ens" else MOL_OPS)
+        op = {"op": o}
+        if o in ("loop-break", "loop-raise", "atoms-loop", "lookup"):
+            op["at"] = rng.randrange(8)
+        elif o == "loop-nested":
+            op.update(at=rng.choice([None, rng.randrange(8)]), how=rng.choice(["break", "raise"]), iat=rng.randrange(8),
+                      inner_at=rng.choice([None, rng.randrange(8)]), ihow=rng.choice(["break", "raise"]))
+        elif o in ("hold", "zip"):
+            op["n"] = rng.randrange(10)
+        elif o == "interleave":
+            op.update(turns=[rng.randrange(2) for _ in range(rng.randrange(1, 2 * nc + 3))], keep=rng.random() < 0.5)
+        elif o == "index":
+            op.update(ks=[rng.randrange(8) for _ in range(rng.randrange(1, 4))], neg=rng.random() < 0.3, keep=rng.random() < 0.5)
+        elif o == "slice":
+            op.update(a=rng.randrange(8), b=rng.randrange(8), keep=rng.random() < 0.5)
+        elif o in ("conf-read",):
+            op["k"] = rng.randrange(8)
+        elif o == "conf-write":
+            op.update(k=rng.randrange(8), entry=rng.choice(W_ENTRIES[:5]))
+        elif o == "write":
+            op["entry"] = rng.choice(W_ENTRIES_ENS if kind == "ens" else W_ENTRIES)
+        elif o == "write-fail":
+            op["ok"] = rng.randrange(0, 12) if rng.random() < 0.5 else rng.randrange(12, 60)
+        elif o == "copy":
+            op.update(via=rng.choice(["deepcopy", "pickle", "copy"]), keep=rng.random() < 0.5)
+        elif o == "clone":
+            op.update(via=rng.choice(["Molecule", "Structure"]), keep=rng.random() < 0.5)
+        elif o == "heavy":
+            op["keep"] = rng.random() < 0.5
+        elif o == "sub-write":
+            op.update(sel=rng.sample(range(64), rng.randrange(1, 4)), keep=rng.random() < 0.5)
+        ops.append(op)
+    return ops
+
+
+def gen_history_cases(ctx, T, n_cases):
+    rng = ctx.rng
+    counter = [0, 0]
+    out = []
+    for k in range(n_cases):
+        kind = ["ens", "ens", "mol", "ens", "struct", "ens"][k % 6]
+        n = rng.choice([1, 2, 3, 5]) if k % 23 else 0
+        atoms, bonds = rand_topology(rng, T, counter, n, rng.choice([0, 1, n]))
+        nc = rng.choice([1, 2, 3, 4, 4, 7 if ctx.thorough else 5]) if kind == "ens" else 1
+        base = {"kind": kind, "route": rng.randrange(2), "name": rng.choice(NAME_POOL), "atoms": atoms, "bonds": bonds,
+                "confs": [rand_conf(rng, n) for _ in range(nc)]}
+        if kind == "ens" and rng.random() < 0.15 and nc > 1:          # two conformers that look the same
+            base["confs"][-1] = json.loads(json.dumps(base["confs"][0]))
+        went = W_ENTRIES_ENS if kind == "ens" else W_ENTRIES
+        out.append({"kind": "history", "base": base, "pre": rand_history(rng, kind, nc, n),
+                    "entry": went[k % len(went)] if rng.random() < 0.7 else rng.choice(went),
+                    "rentry": rng.choice(R_ENTRIES),
+                    "mid": rand_history(rng, kind, nc, n) if rng.random() < 0.6 else [],
+                    "entry2": rng.choice(went), "via_read": rng.random() < 0.2})
+    return out
+
+
+def observe_history(T, d, scratch, trace):
+    """-> (object description, written text, read-back object, second-cycle text)"""
+    import copy
+    base = copy.deepcopy(d["base"])
+    obj = build_obj(T, base)
+    if d.get("via_read"):            # the history happens to an object that was itself read from text
+        obj = cls_of(base["kind"]).loads_mol2(obj.dumps_mol2())
+        base = desc_of_obj(T, obj, base["kind"])
+    keep = []
+    try:
+        apply_history(T, obj, base, d["pre"], keep, scratch, trace)
+    except Exception as ex:          # an operation of the history itself failed: not a matter of this property
+        raise _HistoryOpRaised(f"{type(ex).__name__}: {ex}") from ex
+    text = write_via(obj, base["kind"], d["entry"], scratch)
+    back = read_via(base["kind"], text, d["rentry"], scratch)
+    keep2 = []
+    if d["mid"]:
+        bdesc = desc_of_obj(T, back, base["kind"])
+        try:
+            apply_history(T, back, bdesc, d["mid"], keep2, scratch, [])
+        except Exception as ex:
+            raise _HistoryOpRaised(f"{type(ex).__name__}: {ex}") from ex
+    text2 = write_via(back, base["kind"], d["entry2"], scratch)
+    del keep, keep2
+    return base, text, back, text2
+
+
+def history_tag(d):
+    ops = sorted({o["op"] for o in d["pre"] + d["mid"]})
+    if ops:
+        return "+".join(ops)
+    odd = [f"{k}={d[k]}" for k, plain in (("entry", "dumps"), ("rentry", "loads"), ("entry2", "dumps")) if d[k] != plain]
+    return "nothing" + "".join(":" + x for x in odd)
+
+
+SCRATCH = [None]
+
+
+def scratch_dir():
+    import tempfile
+    if SCRATCH[0] is None or not os.path.isdir(SCRATCH[0]):
+        SCRATCH[0] = tempfile.mkdtemp(prefix="c07_hist_")
+    return SCRATCH[0]
+
+
+def shrink_history(d):
+    """simpler cases first: one operation of the history at a time, plain entry points"""
+    out = []
+    for part in ("pre", "mid"):
+        for o in d[part]:
+            d1 = dict(d, pre=[], mid=[], entry="dumps", entry2="dumps", rentry="loads")
+            d1[part] = [o]
+            out.append(d1)
+    for key, plain in (("entry", "dumps"), ("entry2", "dumps"), ("rentry", "loads")):
+        if d[key] != plain:
+            out.append(dict(d, pre=[], mid=[], **{key: d[key]}, **{k2: p2 for k2, p2 in (("entry", "dumps"), ("entry2", "dumps"), ("rentry", "loads")) if k2 != key}))
+    return out
+
+
+def hist_term(T, desc, trace, text):
+    atoms = [f"(({a['e']}, {a['t']}, {a['g']}), {cq_s(a['label'] or '')})" for a in desc["atoms"]]
+    bonds = [f"(rbond {i} {j} {bt})" for i, j, bt in desc["bonds"]]
+    confs = [cq_list(cq_cpos(c, i) for i in range(len(desc["atoms"]))) for c in desc["confs"]]
+    inp = f"(rens {cq_s(desc['name'])} {cq_list(atoms)} {cq_list(bonds)} {cq_list(confs)})"
+    tr = cq_list(f"({a}, {b})" for a, b in trace)
+    return f"(CHist {inp}\n  {tr}\n  {cq_lines(text)})"
+
+
 # ------------------------------------------------------------------ Coq terms
 def cq_input_atom(T, a, conf, i, wq):
     lbl = a["label"] or ""
@@ -950,7 +1381,22 @@ def judge(T, d, log=None):
     import numpy as np
     import traceback
     pre = suffix = ""
-    if d["kind"] == "rewrite":
+    obs = None
+    if d["kind"] == "history":
+        tag, trace = history_tag(d), []
+        pre = f"after {tag} (written through {d['entry']}, read through {d['rentry']}, written again through {d['entry2']}): "
+        suffix = ":after=" + tag
+        try:
+            d, *obs = observe_history(T, d, scratch_dir(), trace)
+        except _HistoryOpRaised as ex:
+            return [], None, None, {"_skipped": str(ex)}
+        except Exception as ex:
+            tb = "".join(traceback.format_tb(ex.__traceback__)[-4:])
+            where = "write" if "dump" in tb else "read"
+            return [(f"C07:{where}-error:{type(ex).__name__}{suffix}", f"{pre}raised {type(ex).__name__}: {ex}")], None, None, None
+        d["_trace"] = trace
+        obj = None
+    elif d["kind"] == "rewrite":
         try:
             obj, d = build_rewrite(T, d, log)
         except Exception as ex:
@@ -967,7 +1413,7 @@ def judge(T, d, log=None):
     else:
         obj = build_obj(T, d)
     try:
-        text, back, text2 = observe(d, obj)
+        text, back, text2 = obs if obs is not None else observe(d, obj)
     except Exception as ex:  # the property promises that own output reads back
         where = "write" if "dump" in "".join(traceback.format_tb(ex.__traceback__)[-3:]) else "read"
         return [(f"C07:{where}-error:{type(ex).__name__}{suffix}", f"{pre}{d['kind']} round trip raised {type(ex).__name__}: {ex}")], None, None, d
@@ -1118,12 +1564,15 @@ HEADER = ("From Coq Require Import String List NArith.\nFrom Molli Require Impor
           "Import ListNotations.\nLocal Open Scope N_scope.\n")
 
 
+HEADER_H = HEADER + "From Molli Require Import Model.Mol2History.\n"
+
+
 def case_key(d):
     return vlib.hashlib.sha1(json.dumps(d, sort_keys=True).encode()).hexdigest()[:16]
 
 
 def n_atoms_of(d):
-    if d["kind"] in ("rewrite", "view"):
+    if d["kind"] in ("rewrite", "view", "history"):
         return len(d["base"]["atoms"])
     return sum(len(m["atoms"]) for m in d["mols"]) if d["kind"] == "all" else len(d["atoms"])
 
@@ -1149,7 +1598,9 @@ def run(ctx, rep):
     rep.rule = ("layer (a): every (element x atom type x geometry) triple and every bond type, exhaustively; layer (b): random "
                 "molecules / structures / ensembles / multi-molecule texts through dumps_mol2 + loads_mol2, write -> edit -> write "
                 "again, and objects that do not own their atoms (Substructure and Conformer views, atoms adopted by a second "
-                "structure, clones and concatenations of these); a case is "
+                "structure, clones and concatenations of these), and objects with a history of look-only operations before the write "
+                "(unfinished / nested / suspended iterations, earlier writes, indexing, views, property reads, copies) through every "
+                "writer entry point; a case is "
                 "non-trivial when it has at least one atom; distinct by its full description")
     rep.trusted += ["T-emitter harness/c07.py (tabulate/gen_types: CPython executing Atom.get_mol2_type, Atom.set_mol2_type, "
                     "Bond.get_mol2_type, Bond.set_mol2_type over their whole finite domain)",
@@ -1184,8 +1635,11 @@ def run(ctx, rep):
     # ---- tie H
     n_cases = 6000 if ctx.thorough else 600
     descs = (gen_cases(ctx, T, n_cases) + gen_rewrite_cases(ctx, T, 1000 if ctx.thorough else 120)
-             + gen_view_cases(ctx, T, 1800 if ctx.thorough else 180))
+             + gen_view_cases(ctx, T, 1800 if ctx.thorough else 180)
+             + gen_history_cases(ctx, T, 2400 if ctx.thorough else 300))
+    SCRATCH[0] = ctx.sub("hist")
     terms, kept = [], []
+    hterms, hkept = [], []
     for d in descs:
         oplog = []
         vs, text, back, d_eff = judge(T, d, oplog)
@@ -1204,6 +1658,27 @@ def run(ctx, rep):
                 if sel is not None:
                     rep.count("view-selection:" + ("prefix-of-parent" if sel == list(range(len(sel))) else "not-a-prefix"))
                 rep.count("view-bonds:0" if not d_eff.get("bonds") else "view-bonds:>0")
+        elif d["kind"] == "history":
+            for o in d["pre"]:
+                rep.count("history:" + o["op"])
+            for o in d["mid"]:
+                rep.count("history-before-second-write:" + o["op"])
+            rep.count("history-object:" + d["base"]["kind"])
+            if d_eff is not None and "_skipped" in d_eff:
+                rep.count("history-skipped:an-operation-of-the-history-raised")
+            rep.count("write-entry:" + d["entry"])
+            rep.count("read-entry:" + d["rentry"])
+            rep.count("second-write-entry:" + d["entry2"])
+            tr = (d_eff or {}).get("_trace") or []
+            if d["base"]["kind"] == "ens":
+                # an iteration that was started and not run to its end when the write happens
+                started = sum(1 for a, _ in tr if a == "HNew")
+                ended = sum(1 for _, b in tr if b == "OStop")
+                rep.count("history-iterations:" + ("none" if not started else "all-finished" if ended >= started else "some-unfinished"))
+            if vs:                      # the smallest history that shows the same: one operation, plain entry points
+                for d2 in shrink_history(d):
+                    for sig, what in judge(T, d2)[0]:
+                        rep.violate(sig, what, {"kind": "case", "desc": d2})
         elif d["kind"] != "all":
             rep.count("bonds:0" if not d["bonds"] else "bonds:>0")
             for c in d["confs"]:
@@ -1221,11 +1696,14 @@ def run(ctx, rep):
             t, notes = case_term(T, d_eff, text, back)
             terms.append(t)
             kept.append(d)
+            if d["kind"] == "history" and d_eff["kind"] == "ens":
+                hterms.append(hist_term(T, d_eff, d_eff["_trace"], text))
+                hkept.append(d)
             for nnote in notes:
                 rep.count("note:" + nnote.split(":")[0])
     used = {"e": set(), "t": set(), "g": set(), "b": set()}
     for d in descs:
-        for m in (d["mols"] if d["kind"] == "all" else [d["base"]] if d["kind"] in ("rewrite", "view") else [d]):
+        for m in (d["mols"] if d["kind"] == "all" else [d["base"]] if d["kind"] in ("rewrite", "view", "history") else [d]):
             for a in m["atoms"]:
                 used["e"].add(a["e"]); used["t"].add(a["t"]); used["g"].add(a["g"])
             for b in m["bonds"]:
@@ -1249,12 +1727,27 @@ def run(ctx, rep):
             # the oracle already judged every case; widen around the mismatching ones before giving up
             hit = found
             for i in bad[:20]:
-                for d2 in ([] if kept[i]["kind"] in ("pyws", "rewrite", "view") else neighbourhood(ctx, kept[i])):
+                for d2 in ([] if kept[i]["kind"] in ("pyws", "rewrite", "view", "history") else neighbourhood(ctx, kept[i])):
                     for sig, what in judge(T, d2)[0]:
                         hit = hit or sig not in known
                         rep.violate(sig, what, {"kind": "case", "desc": d2})
             vlib.broken_obligation(rep, "corr_c07", f"{len(bad)} case(s) where model and molli disagree on the written text or the "
                                    f"read-back fields, first: {json.dumps(kept[bad[0]])[:1500]}", hit)
+        # what every iteration over an ensemble handed out before the write, and the text, against Model/Mol2History.v
+        badh = vlib.run_shards(ctx, rep, "c07h", HEADER_H, "check_hist", hterms, shard=60, case_type="hcase") if hterms else []
+        if badh is None:
+            vlib.broken_obligation(rep, "corr_c07h", "correspondence shard did not compile: " + str(rep.extra.get("shard_errors", ""))[-1500:], found)
+        elif badh:
+            rep.extra["mismatching_history_cases"] = badh[:50]
+            hit = found
+            for i in badh[:20]:
+                for d2 in [hkept[i]] + shrink_history(hkept[i]):
+                    for sig, what in judge(T, d2)[0]:
+                        hit = hit or sig not in known
+                        rep.violate(sig, what, {"kind": "case", "desc": d2})
+            vlib.broken_obligation(rep, "corr_c07h", f"{len(badh)} case(s) where the conformers handed out by iterations over an ensemble, or the "
+                                   f"text written after them, differ from the model (every iter() owns its cursor; looking changes nothing), "
+                                   f"first: {json.dumps(hkept[badh[0]])[:1500]}", hit)
     else:
         vlib.broken_obligation(rep, "C07_props", f"{where}\n{out[-1500:]}", found)
 
@@ -1275,6 +1768,16 @@ def neighbourhood(ctx, d):
 
 
 def replay(ctx, data):
+    import shutil
+    try:
+        return replay0(ctx, data)
+    finally:
+        if SCRATCH[0] and os.path.basename(SCRATCH[0]).startswith("c07_hist_"):
+            shutil.rmtree(SCRATCH[0], ignore_errors=True)
+            SCRATCH[0] = None
+
+
+def replay0(ctx, data):
     T = tabulate()
     out = []
     k = data.get("kind")
